@@ -4,6 +4,7 @@ import (
 	"fmt"
 	"sync"
 	"testing"
+	"verif/elem"
 
 	"pgregory.net/rapid"
 	"verif/vk"
@@ -31,7 +32,23 @@ func genOp(t *rapid.T, longMax int) Op {
 	return op
 }
 
+// genEdgeCase: a full buffer of more than 1024 elements whose head offset is
+// within one of the amount append will add, followed by Add / Push and a few
+// ordinary operations.
+func genEdgeCase(t *rapid.T) Case {
+	c := Case{Ctor: "edge",
+		N:    rapid.SampledFrom([]int{1025, 1025, 1100, 1536, 2049, 2100, 3000, 4097}).Draw(t, "edgeN") + rapid.IntRange(0, 3).Draw(t, "edgeOff"),
+		Edge: rapid.SampledFrom([]int{-1, 0, 0, 1, 1, 2}).Draw(t, "edge"),
+		Elem: rapid.SampledFrom([]string{"", "", elem.Str, elem.I16, KindU8, elem.Wide, elem.Ptr}).Draw(t, "edgeElem")}
+	c.Ops = append(c.Ops, Op{K: rapid.SampledFrom([]string{"add", "push"}).Draw(t, "edgeFirst")})
+	c.Ops = append(c.Ops, rapid.SliceOfN(rapid.Custom(func(t *rapid.T) Op { return genOp(t, 0) }), 0, 6).Draw(t, "edgeOps")...)
+	return c
+}
+
 func genCase(t *rapid.T) Case {
+	if vk.Rare(t, "edgeCase", 150) {
+		return genEdgeCase(t)
+	}
 	c := Case{Ctor: rapid.SampledFrom([]string{"zero", "new", "size", "size", "size"}).Draw(t, "ctor")}
 	if c.Ctor == "size" {
 		c.N = rapid.OneOf(rapid.IntRange(0, 17), rapid.IntRange(0, 17), rapid.SampledFrom([]int{31, 32, 33, 63, 64, 65, 100, 127, 128, 129, 255, 256, 257, 511, 512, 513})).Draw(t, "n")
@@ -176,7 +193,7 @@ func TestC07Exh(t *testing.T) {
 			c := mk(l, i)
 			st.slot.Enter(c)
 			var r *qstats
-			msg := vk.Guard(func() string { var m string; r, m = runQueue(c); return m })
+			msg := vk.Guard(func() string { var m string; r, m = runQueue(c, nil); return m })
 			st.slot.Leave()
 			if msg != "" {
 				p := h.Fail(c, msg)
